@@ -281,10 +281,22 @@ def _run_pgm(ctx, spec, rng):
             inp = [x.copy() for x in rhos]
         else:
             vs = [gen.unit(rng, d, cplx) for _ in range(n)]
+            conj_closed = cplx and (r // 6) % 2 == 1
+            if conj_closed:
+                # a structured complex ensemble: closed under complex conjugation with matching priors (circular-polarisation pairs, the six-state
+                # ensemble are of this kind), so the average state is REAL although the member states are not
+                base = [gen.unit(rng, d, True) for _ in range(max(1, n // 2))]
+                vs = [x_ for b_ in base for x_ in (b_, b_.conj())]
+                if n % 2:
+                    vs.append(gen.unit(rng, d, False).astype(complex))
+                n = len(vs)
             rhos = [np.outer(v, v.conj()) for v in vs]
             # flat, column and row vectors are the documented vector forms (matrix_ops.to_density_matrix)
             inp = [[v.reshape(-1, 1).copy() for v in vs], [v.copy() for v in vs], [v.reshape(1, -1).copy() for v in vs]][(r // 4) % 3]
         p = gen.prior(rng, n, (r // 4) % 3)
+        if not mixed and conj_closed:
+            p = np.array([p[2 * (i_ // 2)] if i_ < 2 * (n // 2) else p[i_] for i_ in range(n)], dtype=float)  # a vector and its conjugate are equally likely
+            p = p / p.sum()
         s = sum(pi * x for pi, x in zip(p, rhos))
         if np.linalg.eigvalsh(ref.herm(s)).min() > 1e-3:
             break
